@@ -8,6 +8,7 @@
      " " "TAB" "LF"               whitespace that is trimmed and collapsed
      "NBSP"   U+00A0              NOT trimmed, NOT collapsed (not a space, tab or line ending)
      "ERB" "ELB"                  the two-byte sequences \] and \[ (kept as they are)
+     "BS"                         a backslash that escapes nothing (followed by white space or a letter): an ordinary character
    Normalize = Fold o Collapse(space|tab|LF runs -> one space) o Trim(space, tab, LF).
 
    A document is a sequence of items in source order:
@@ -31,6 +32,7 @@ Labels ==
     [] Family = "idot" -> {<<"IDOT">>, <<"i", "COMBDOT">>, <<"i">>, <<"a">>}
     [] Family = "nbsp" -> {<<"NBSP", "a">>, <<"a">>, <<" ", "a">>, <<"a", "NBSP">>, <<"a", "NBSP", "b">>, <<"a", " ", "b">>}
     [] Family = "esc" -> {<<"a", "ERB">>, <<"A", "ERB">>, <<"ELB", "a">>, <<"a">>}
+    [] Family = "bs" -> {<<"a", "BS", " ">>, <<"A", "BS", "TAB">>, <<"a", "BS", "LF">>, <<"a">>, <<"a", "BS", " ", "b">>, <<"a", "BS", "b">>}
     [] OTHER -> {}
 
 WS == {" ", "TAB", "LF"}
@@ -99,14 +101,16 @@ Emit == NUses(doc) >= 1 =>
 \* record: defs = <<keyId, destId, titleId, hasTitle>> in tree order (keyId 0 = empty label, skipped by Extract),
 \*         refs = key ids named by reference-style link/image nodes, map / remap = <<keyId, destId, titleId, hasTitle>>
 \*         (returned map, and the map re-extracted from the root blocks in order), syms = for keys whose characters
-\*         are all inside the fold table: <<keyId, symbol sequence>>
+\*         are all inside the fold table: <<keyId, symbol sequence>>; ident = 1: the document defines a label and uses the
+\*         identical label text once, nlinks = number of links in the using paragraph (matching is reflexive)
 Traces == ndJsonDeserialize(File)
 FirstWinsMap(defs) ==
   LET ids == {defs[k][1] : k \in 1..Len(defs)} \ {0}
   IN {LET S == {k \in 1..Len(defs) : defs[k][1] = id} IN defs[CHOOSE k \in S : \A j \in S : k <= j] : id \in ids}
 ToSet(q) == {q[k] : k \in 1..Len(q)}
 TraceVerdict(t) ==
-  IF ToSet(t.map) # FirstWinsMap(t.defs) THEN "map-is-not-first-wins-extraction"
+  IF t.ident = 1 /\ t.nlinks # 1 THEN "label-does-not-match-itself"
+  ELSE IF ToSet(t.map) # FirstWinsMap(t.defs) THEN "map-is-not-first-wins-extraction"
   ELSE IF ToSet(t.remap) # ToSet(t.map) THEN "map-differs-from-re-extraction"
   ELSE IF \E k \in 1..Len(t.refs) : t.refs[k] \notin {t.map[j][1] : j \in 1..Len(t.map)} THEN "reference-node-names-missing-key"
   ELSE IF \E k \in 1..Len(t.syms) : Normalize(t.syms[k][2]) # t.syms[k][2] THEN "key-not-normalized"
